@@ -598,7 +598,7 @@ func rbody(kind string, callers [][]int, sinkHas, faults int, cancelOne bool, si
 
 // ---- existence cache ----------------------------------------------------------------------------------
 
-func ebody(size int, set string, depth int) func() {
+func ebody(size int, set string, depth int, ndig int) func() {
 	return func() {
 		backend := sim.NewModel("backend", digest.KeyWithoutInstance)
 		var es eviction.Set[string]
@@ -611,7 +611,8 @@ func ebody(size int, set string, depth int) func() {
 			es = eviction.NewRRSet[string]()
 		}
 		ec := digest.NewExistenceCache(lstore.VClock{}, digest.KeyWithoutInstance, size, cacheDuration, es)
-		objs := []lstore.Obj{lstore.CASObj("P", "", []byte("p")), lstore.CASObj("Q", "", []byte("qq")), lstore.CASObj("R", "", []byte("rrr"))}
+		objs := []lstore.Obj{lstore.CASObj("P", "", []byte("p")), lstore.CASObj("Q", "", []byte("qq")), lstore.CASObj("R", "", []byte("rrr"))}[:ndig]
+		nsub := 1<<ndig - 1
 		lastPresent := map[string]time.Time{} // last virtual time the BACKEND itself reported the object present
 		fb := &faulty{BlobAccess: backend, name: "backend"}
 		fb.onFM = func(asked, missing digest.Set, err error) {
@@ -625,9 +626,9 @@ func ebody(size int, set string, depth int) func() {
 		}
 		ba := blobstore.NewExistenceCachingBlobAccess(fb, ec)
 		for step := 0; step < depth; step++ {
-			k := vsched.ChooseFree("choice", 12)
+			k := vsched.ChooseFree("choice", nsub+ndig+2)
 			switch {
-			case k < 7:
+			case k < nsub:
 				mask := k + 1
 				var ds []digest.Digest
 				for i, o := range objs {
@@ -663,15 +664,15 @@ func ebody(size int, set string, depth int) func() {
 					}
 				}
 				vsched.Obs("FM(%d)=%v", mask, len(got))
-			case k < 10:
-				o := objs[k-7]
+			case k < nsub+ndig:
+				o := objs[k-nsub]
 				if backend.Has(o.Digest) {
 					backend.Remove(o.Digest)
 				} else {
 					backend.Store(o.Digest, o.Content)
 				}
 				vsched.Obs("toggle %s", o.Name)
-			case k == 10:
+			case k == nsub+ndig:
 				vsched.Advance(1 * time.Second)
 				vsched.Obs("+1s")
 			default:
@@ -724,11 +725,12 @@ func main() {
 			scs = append(scs, mc.Scenario{Name: fmt.Sprintf("replicators/%s-%s", kind, x.name), Space: fmt.Sprintf("%s replicator: callers asking for objects %v, sink initially holds mask %d, fault budget %d, cancellation of caller 0: %v, ReplicateSingle: %v; deviation bound %d", kind, x.callers, x.sinkHas, x.faults, x.cancel, x.single, rb), Bound: rb, Body: rbody(kind, x.callers, x.sinkHas, x.faults, x.cancel, x.single), Budget: budget, MaxSteps: 60000})
 		}
 	}
-	ed := ev.Pick(r, 5, 6)
-	mc.GroupSpace["existence"] = fmt.Sprintf("cache sizes {1,2} x eviction sets {lru,fifo,rr}: all sequences of %d operations over {FindMissing of each non-empty subset of 3 digests, toggle each digest in the backend, advance the clock by 1 s, by 9 s}, duration 10 s", ed)
+	ed2, ed3 := ev.Pick(r, 7, 8), ev.Pick(r, 5, 6)
+	mc.GroupSpace["existence"] = fmt.Sprintf("cache sizes {1,2} x eviction sets {lru,fifo}: all sequences of %d operations over {FindMissing of each non-empty subset of 2 digests, toggle each digest in the backend, advance the clock by 1 s, by 9 s} and all sequences of %d operations with 3 digests; duration 10 s", ed2, ed3)
 	for _, size := range []int{1, 2} {
 		for _, set := range []string{"lru", "fifo"} {
-			scs = append(scs, mc.Scenario{Name: fmt.Sprintf("existence/size%d-%s", size, set), Group: "existence", Bound: 0, Body: ebody(size, set, ed)})
+			scs = append(scs, mc.Scenario{Name: fmt.Sprintf("existence/size%d-%s-2digests", size, set), Group: "existence", Bound: 0, Body: ebody(size, set, ed2, 2)})
+			scs = append(scs, mc.Scenario{Name: fmt.Sprintf("existence/size%d-%s-3digests", size, set), Group: "existence", Bound: 0, Body: ebody(size, set, ed3, 3)})
 		}
 	}
 	mc.Run(r, scs)
